@@ -870,6 +870,19 @@ def call_method(E, recv, name, args, kwargs, st, node):
             if name == "union":
                 return [(st, new)]
             return [(write_recv(E, node, new, st), NONE)]
+        if name == "discard" and len(args) == 1:
+            # every candidate that equals the value is taken out (its presence condition gains "and is not the value")
+            x = args[0]
+            items, conds = [], []
+            for i, y in enumerate(recv.items):
+                ci = recv.cond(i)
+                eq = equal(y, x)
+                if eq is True:
+                    continue
+                items.append(y)
+                conds.append(ci if eq is False else b_and(ci, b_not(eq)))
+            new = LitSet(items, conds if any(c is not True for c in conds) else None)
+            return [(write_recv(E, node, new, st), NONE)]
         if name in ("union", "intersection", "difference", "isdisjoint", "issubset"):
             raise EngineError("set.%s on literal sets" % name)
         raise EngineError("set.%s" % name)
